@@ -110,7 +110,7 @@ class Post(object):
             from ..props.c19 import read_all
             out = []
             for pth in (g, b):
-                out.append([] if os.path.getsize(pth) == 0 else read_all(pth))
+                out.append([] if (not os.path.exists(pth) or os.path.getsize(pth) == 0) else read_all(pth))      # no file = no records
             return out
         if fname in ('plot_params_1d', 'plot_params_2d'):
             import matplotlib.pyplot as plt
